@@ -100,7 +100,7 @@ FixOne(o, x, name, ES, shadow) ==
 FixpointFails(e) ==
   IF e.have = "F" \/ Verdict(e.ty, e.val) # "A" THEN {}
   ELSE LET x == Dec(e.x) IN
-       IF x # Img(e.ty, e.val) \/ ~OutEnabled(e.ty) \/ ~StdVal(x) THEN {}
+       IF x # Img(e.ty, e.val) \/ ~OutEnabled(e.ty) \/ ~ReadsOwnForm(e.ty) \/ ~StdVal(x) THEN {}
        ELSE LET ES == ExSet(e.ty)
                 \* convert = parse(serialise-by-own-type): an earlier union member that reads that serialised form wins
                 sh == e.ty.k = "union" /\ e.ser.k = "ok" /\ UnionShadow(e.ty, e.val, e.ser.x) IN
